@@ -10,6 +10,7 @@ import JS.Props.C12
 import JS.Props.C13
 import JS.Props.C14
 import JS.Props.C15
+import JS.Props.C16
 import JS.Props.C17
 import JS.Props.C18
 import JS.Props.C19
